@@ -12,6 +12,7 @@ import (
 	"github.com/postalsys/muti-metroo/internal/health"
 	"github.com/postalsys/muti-metroo/internal/identity"
 	"github.com/postalsys/muti-metroo/internal/peer"
+	"github.com/postalsys/muti-metroo/internal/protocol"
 	"github.com/postalsys/muti-metroo/internal/shell"
 	"github.com/postalsys/muti-metroo/internal/stream"
 )
@@ -72,4 +73,17 @@ func C07ReceiveEncrypted(a *Agent, s *stream.Stream, key *crypto.SessionKey, tot
 		return nil, err
 	}
 	return buf.Bytes(), err
+}
+
+// --- added for engine c07b (receive path with a stalled reader; oversize single messages)
+
+// C07StreamMgr is the agent's real stream manager (ingress side of TCP / forward streams).
+func C07StreamMgr(a *Agent) *stream.Manager { return a.streamMgr }
+
+// C07HandleStreamData is the real STREAM_DATA dispatcher of the frame processor.
+func C07HandleStreamData(a *Agent, peerID identity.AgentID, f *protocol.Frame) { a.handleStreamData(peerID, f) }
+
+// C07SendControlResponse is the real control-response sender.
+func C07SendControlResponse(a *Agent, peerID identity.AgentID, requestID uint64, controlType uint8, success bool, data []byte) {
+	a.sendControlResponse(peerID, requestID, controlType, success, data)
 }
